@@ -66,9 +66,10 @@ type Spelling struct {
 }
 
 type unparser struct {
-	buf bytes.Buffer
-	sp  Spelling
-	rng uint64
+	buf   bytes.Buffer
+	sp    Spelling
+	rng   uint64
+	guard bool // the last thing written was an opening delimiter with nothing after it
 }
 
 func (u *unparser) sep() string {
@@ -95,19 +96,50 @@ func (u *unparser) osep(canon string) string {
 	return u.sp.Seps[(u.rng>>33)%uint64(len(u.sp.Seps))]
 }
 
-func (u *unparser) w(s string) { u.buf.WriteString(s) }
+func (u *unparser) w(s string) {
+	if u.guard && len(s) > 0 {
+		// "{{-" would be a white-space control marker and "{{{" is ambiguous: keep a blank there
+		if s[0] == '-' || s[0] == '{' || s[0] == '+' {
+			u.buf.WriteByte(' ')
+		}
+		u.guard = false
+	}
+	u.buf.WriteString(s)
+}
 
 func (u *unparser) open(d string) {
 	u.w(d)
-	if u.sp.Tight {
-		return
+	if u.sp.Trim {
+		u.w("-")
 	}
-	u.w(u.osep(" "))
+	sep := " "
+	if u.sp.Tight {
+		sep = ""
+	} else {
+		sep = u.osep(" ")
+	}
+	if sep == "" {
+		u.guard = true
+	} else {
+		u.w(sep)
+	}
 }
 
 func (u *unparser) close(d string) {
+	sep := ""
 	if !u.sp.Tight {
-		u.w(u.osep(" "))
+		sep = u.osep(" ")
+	}
+	if sep == "" && u.buf.Len() > 0 {
+		switch u.buf.Bytes()[u.buf.Len()-1] {
+		case '}', '-', '%', '#':
+			sep = " "
+		}
+	}
+	u.guard = false
+	u.w(sep)
+	if u.sp.Trim {
+		u.w("-")
 	}
 	u.w(d)
 }
